@@ -78,10 +78,20 @@ fn cfg_text(c: &CCase) -> String {
         for i in 0..5 {
             s.push_str(&format!(" ({}) {}", PART[i], SINGLE_OUT[i]));
         }
+        let layered = c.scenario % 8 == 7;
         for (i, ch) in c.chords.iter().enumerate() {
-            s.push_str(&format!(" ({}) {}", mask_keys(ch.keys).iter().map(|k| PART[*k]).collect::<Vec<_>>().join(" "), CHORD_OUT[i]));
+            let keys = mask_keys(ch.keys).iter().map(|k| PART[*k]).collect::<Vec<_>>().join(" ");
+            if layered {
+                // scenario 7: every chord also holds a layer on which e types v
+                s.push_str(&format!(" ({keys}) (multi (layer-while-held l1) {})", CHORD_OUT[i]));
+            } else {
+                s.push_str(&format!(" ({keys}) {}", CHORD_OUT[i]));
+            }
         }
         s.push_str(")\n(deflayer l0 (chord grp a) (chord grp b) (chord grp c) (chord grp d) w XX (chord grp g))\n");
+        if layered {
+            s.push_str("(deflayer l1 _ _ _ _ v _ _)\n");
+        }
     }
     s
 }
@@ -263,7 +273,7 @@ fn judge_case(c: &CCase) -> Verdict {
         }
         true
     };
-    match c.scenario % 5 {
+    match c.scenario % 8 {
         2 => {
             // a single participant alone is not swallowed: its own action, exactly once
             let only = [keys[0]];
@@ -349,9 +359,183 @@ fn judge_case(c: &CCase) -> Verdict {
             v.classes.push("interrupted-partial-chord");
             return v;
         }
+        5 if c.v2 => {
+            // two chords active at once that share keys: the exercised chord stays active through
+            // the keys the other one does not have, the shared keys are released and pressed
+            // again together with the other chord's keys; then everything is released. Both
+            // actions must be released no later than their last participant: nothing stays down.
+            let other = c.chords.iter().enumerate().find(|(i, o)| *i != wi && o.keys & ch.keys != 0 && ch.keys & !o.keys != 0);
+            if let Some((oi, o)) = other {
+                let mut sim = match Sim::new(&text) {
+                    Ok(s) => s,
+                    Err(e) => return Verdict::failed("harness:chord-config-rejected", e),
+                };
+                let shared = mask_keys(o.keys & ch.keys);
+                let okeys = mask_keys(o.keys);
+                for i in &keys {
+                    sim.press(code_of(PART[*i]));
+                    sim.tick_n(1);
+                }
+                sim.tick_n(max_tmo(c) + 20);
+                for i in &shared {
+                    sim.release(code_of(PART[*i]));
+                    sim.tick_n(2);
+                }
+                sim.tick_n(10);
+                for i in &okeys {
+                    sim.press(code_of(PART[*i]));
+                    sim.tick_n(1);
+                }
+                sim.tick_n(max_tmo(c) + 20);
+                let both_down = {
+                    let mut os = OsState::default();
+                    for ev in &sim.outs {
+                        os.apply(ev);
+                    }
+                    os.keys.contains(&y) && os.keys.contains(&code_of(CHORD_OUT[oi]))
+                };
+                // release: shared keys first or last
+                let mut rel: Vec<usize> = shared.clone();
+                let rest: Vec<usize> = (0..5).filter(|i| (o.keys | ch.keys) & (1 << i) != 0 && !shared.contains(i)).collect();
+                if c.release_perm % 2 == 0 {
+                    rel.extend(rest);
+                } else {
+                    rel = rest.into_iter().chain(shared.iter().copied()).collect();
+                }
+                for i in &rel {
+                    sim.release(code_of(PART[*i]));
+                    sim.tick_n(3);
+                }
+                sim.tick_n(max_tmo(c) + 40);
+                let mut os = OsState::default();
+                for ev in &sim.outs {
+                    os.apply(ev);
+                }
+                if os.anything_down() {
+                    return Verdict::failed(
+                        "chord:key-left-down",
+                        format!("{text}chord ({}) held, shared keys released and pressed again with ({}), all released: {}", keys.iter().map(|i| PART[*i]).collect::<Vec<_>>().join(" "), okeys.iter().map(|i| PART[*i]).collect::<Vec<_>>().join(" "), fmt_outs(&sim.outs)),
+                    );
+                }
+                if !sim.k.is_idle() {
+                    return Verdict::failed("chord:not-idle-at-end", format!("{text}two chords sharing keys: {}", fmt_outs(&sim.outs)));
+                }
+                v.classes.push("two-chords-sharing-keys");
+                if both_down {
+                    v.classes.push("two-chords-active-at-once");
+                }
+                return v;
+            }
+        }
+        6 if c.v2 => {
+            // a key that takes part in 25 chords (more than any fixed-size candidate list):
+            // every one of them fires for exactly its key set, whichever key comes first
+            const P6: [&str; 6] = ["a", "b", "c", "d", "g", "h"];
+            const OUT25: [&str; 25] = ["i", "j", "k", "l", "m", "n", "o", "p", "q", "r", "s", "t", "u", "v", "x", "y", "z", "7", "8", "9", "0", "f1", "f2", "f3", "f4"];
+            let mut sets: Vec<u8> = (1u8..32).filter(|m| m.count_ones() <= 3).collect();
+            // definition order chosen by the case
+            let rot = (c.release_perm as usize / 4) % sets.len();
+            sets.rotate_left(rot);
+            let mut wide = String::from("(defcfg log-layer-changes no concurrent-tap-hold yes)\n(defsrc a b c d e f g h)\n(deflayer l0 1 2 3 4 w XX 5 6)\n(defchordsv2");
+            for (i, m) in sets.iter().enumerate() {
+                let others: Vec<&str> = (0..5).filter(|b| m & (1 << b) != 0).map(|b| P6[b + 1]).collect();
+                wide.push_str(&format!("\n  (a {}) {} 30 all-released ()", others.join(" "), OUT25[i]));
+            }
+            wide.push_str(")\n");
+            let idx = pick(c.which, sets.len());
+            let mut ks: Vec<&str> = vec!["a"];
+            ks.extend((0..5).filter(|b| sets[idx] & (1 << b) != 0).map(|b| P6[b + 1]));
+            match c.release_perm % 4 {
+                0 => {}
+                1 => ks.reverse(),
+                2 => ks.rotate_left(1),
+                _ => {
+                    let l = ks.len();
+                    ks.swap(0, l - 1);
+                }
+            }
+            let mut sim = match Sim::new(&wide) {
+                Ok(s) => s,
+                Err(e) => return Verdict::failed("harness:chord-config-rejected", format!("{wide}{e}")),
+            };
+            for kname in &ks {
+                sim.press(code_of(kname));
+                sim.tick_n(1);
+            }
+            sim.tick_n(50);
+            for kname in &ks {
+                sim.release(code_of(kname));
+                sim.tick_n(2);
+            }
+            sim.tick_n(70);
+            let downs: Vec<u16> = sim.outs.iter().filter_map(|o| if let OutEv::Down(kc) = o.ev { Some(kc) } else { None }).collect();
+            if downs != vec![code_of(OUT25[idx])] {
+                return Verdict::failed(
+                    "chord:wide-table-chord-not-fired-exactly",
+                    format!("{wide}keys {ks:?} pressed 1 ms apart (chord #{idx} in definition order, action {}): output {}", OUT25[idx], fmt_outs(&sim.outs)),
+                );
+            }
+            let mut os = OsState::default();
+            for ev in &sim.outs {
+                os.apply(ev);
+            }
+            if os.anything_down() {
+                return Verdict::failed("chord:key-left-down", format!("{wide}keys {ks:?}: {}", fmt_outs(&sim.outs)));
+            }
+            v.classes.push("key-in-25-chords");
+            v.nontrivial = true;
+            return v;
+        }
+        7 if !c.v2 && k >= 2 => {
+            // v1, action (multi (layer-while-held l1) key): the layer too is held until all
+            // participants are released
+            let mut sim = match Sim::new(&text) {
+                Ok(s) => s,
+                Err(e) => return Verdict::failed("harness:chord-config-rejected", e),
+            };
+            for i in &keys {
+                sim.press(code_of(PART[*i]));
+                sim.tick_n(1);
+            }
+            sim.tick_n(max_tmo(c) + 20);
+            let fired = sim.outs.iter().any(|o| o.ev == OutEv::Down(y));
+            let mut probes: Vec<(usize, bool)> = vec![];
+            for (n, ri) in rel_order.iter().enumerate() {
+                sim.release(code_of(PART[keys[*ri]]));
+                sim.tick_n(10);
+                let before = sim.outs.len();
+                sim.press(code_of("e"));
+                sim.tick_n(3);
+                sim.release(code_of("e"));
+                sim.tick_n(10);
+                let typed_v = sim.outs[before..].iter().any(|o| o.ev == OutEv::Down(code_of("v")));
+                probes.push((n + 1, typed_v));
+            }
+            sim.tick_n(max_tmo(c) + 40);
+            if fired {
+                for (n, typed_v) in &probes {
+                    let want = *n < k;
+                    if *typed_v != want {
+                        return Verdict::failed(
+                            "chord:v1-layer-of-multi-action-release-rule",
+                            format!("{text}chord ({}) with action (multi (layer-while-held l1) ..), {n} of {k} participants released: e typed {} - the layer must be held until all participants are released\noutput {}", keys.iter().map(|i| PART[*i]).collect::<Vec<_>>().join(" "), if *typed_v { "v (layer l1)" } else { "w (layer l0)" }, fmt_outs(&sim.outs)),
+                        );
+                    }
+                }
+                v.classes.push("v1-multi-with-layer");
+            }
+            let mut os = OsState::default();
+            for ev in &sim.outs {
+                os.apply(ev);
+            }
+            if os.anything_down() {
+                return Verdict::failed("chord:key-left-down", format!("{text}v1 multi with layer: {}", fmt_outs(&sim.outs)));
+            }
+            return v;
+        }
         _ => {}
     }
-    let extra = c.scenario % 5 == 1;
+    let extra = c.scenario % 8 == 1;
     // reference run: sorted press order
     let sorted: Vec<usize> = (0..k).collect();
     let base = match run(c, &keys, &sorted, &gaps, &rel_order, extra, false) {
@@ -506,7 +690,7 @@ impl TypedProp for C09 {
     fn info(&self) -> PropInfo {
         PropInfo {
             level: "exploration",
-            rule: "tables: defchords (v1) and defchordsv2 (v2) with 1-6 chords over participating keys a-d (overlapping chords, sub-chords, supersets, v2: both release behaviours, disabled layer), timeouts {8,30}, every chord action a distinct key. For one chord of the table: all its keys pressed with total span well below / T-2 / T+3, then released in a chosen order, optionally followed by a non-chord key. Oracles: (reference) within the timeout the chord's action appears exactly once and nothing else of the participants, the following key is not swallowed and comes after it, the action is released per the release rule and no later than the last participant; beyond the timeout the whole chord does not fire and keys are not swallowed; a single participant alone gives its own action once; all keys of the chord but the last (containing no chord), then a non-chord key and the last key in the same millisecond => every key's own action exactly once in the original order; on its disabled layer a v2 chord does not fire; (metamorphic, exhaustive over orders) every permutation of the press order gives the same timestamped OS transitions as the sorted order (v1: the same timestamped presses), nothing is left down. Non-trivial: the table contains a sub- or super-chord of the exercised chord. Distinct: hash of the case.",
+            rule: "tables: defchords (v1) and defchordsv2 (v2) with 1-6 chords over participating keys a-d (overlapping chords, sub-chords, supersets, v2: both release behaviours, disabled layer), timeouts {8,30}, every chord action a distinct key. For one chord of the table: all its keys pressed with total span well below / T-2 / T+3, then released in a chosen order, optionally followed by a non-chord key. Oracles: (reference) within the timeout the chord's action appears exactly once and nothing else of the participants, the following key is not swallowed and comes after it, the action is released per the release rule and no later than the last participant; beyond the timeout the whole chord does not fire and keys are not swallowed; a single participant alone gives its own action once; all keys of the chord but the last (containing no chord), then a non-chord key and the last key in the same millisecond => every key's own action exactly once in the original order; on its disabled layer a v2 chord does not fire; two v2 chords that share keys, active at once (shared keys released and pressed again with the second chord's keys), leave nothing down after all releases; a key taking part in 25 chords (definition order rotated by the case): each fires exactly for its key set whichever key is pressed first; v1 chords with action (multi (layer-while-held ..) key): the layer, probed with another key after each release, is held until all participants are released; (metamorphic, exhaustive over orders) every permutation of the press order gives the same timestamped OS transitions as the sorted order (v1: the same timestamped presses), nothing is left down. Non-trivial: the table contains a sub- or super-chord of the exercised chord. Distinct: hash of the case.",
             assumptions: vec!["spans within 2 ms of the timeout are only checked metamorphically (the exact boundary convention differs between v1 and v2)".into()],
             extra: BTreeMap::new(),
         }
@@ -519,7 +703,7 @@ impl TypedProp for C09 {
             },
             exhaustive: false,
             distinct_by_construction: false,
-            required_classes: vec!["v1", "v2", "released-before-timeout", "outlasts-shorter-overlapping-chord", "within-timeout", "beyond-timeout", "permuted", "with-following-key", "overlapping-table", "single-participant", "disabled-layer", "interrupted-partial-chord"],
+            required_classes: vec!["v1", "v2", "released-before-timeout", "outlasts-shorter-overlapping-chord", "within-timeout", "beyond-timeout", "permuted", "with-following-key", "overlapping-table", "single-participant", "disabled-layer", "interrupted-partial-chord", "two-chords-active-at-once", "key-in-25-chords", "v1-multi-with-layer"],
             hang_secs: 60,
         }
     }
@@ -534,7 +718,7 @@ impl TypedProp for C09 {
             any::<u16>(),
             0u8..3,
             any::<u16>(),
-            0u8..5,
+            0u8..8,
             prop_oneof![2 => Just(vec![]), 3 => prop::collection::vec(prop::sample::select(vec![8u16, 30, 60]), 6..=6)],
             prop::bool::weighted(0.3),
         )
